@@ -215,7 +215,7 @@ PROPS.update({
 
 PROPS.update({
     'C11': dict(
-        extra_modules=['GraphrsModel.Props.C11Model'],
+        extra_modules=['GraphrsModel.Props.C11Model', 'GraphrsModel.Props.C11Weighted'],
         gens=[('clu', 'small', 2500, 40000, 7), ('clu', 'small', 100, 2000, 16)],
         spec_fields=[r'tri', r'triS', r'gd', r'gdS', r'trans:q', r'clu:q', r'cluS:q', r'wclu:b', r'wcluS:b', r'avg1:b', r'avg0:b',
                      r'avgS:b', r'sq:q', r'sqS:q', r'ok\.unit'],
@@ -386,6 +386,7 @@ PROPS.update({
 
 PROPS.update({
     'C07': dict(
+        extra_modules=['GraphrsModel.Props.C07Model'],
         shrink_seconds=60, shrink_candidates=12,
         thorough_scale=1,
         gens=[('par', 'some', 40, 0, 0), ('par', 'all', 0, 120, 0)],
